@@ -105,13 +105,18 @@ func c18Units(tier string) []*Unit {
 		}, Calls: []vlab.CallSpec{{Task: "root"}}}
 		es = append(es, entry{sc.Name, sc})
 	}
+	// loading a diamond of mapping-form includes with different dirs and a dynamic global variable
+	{
+		sc := &vlab.Scenario{Name: "reader-diamond-dirs-dynvar", Opts: vlab.Options{SchedSetup: true}, Files: c09Configs()["diamond-dirs-dynvar"], Calls: []vlab.CallSpec{{Task: "show"}}}
+		es = append(es, entry{sc.Name, sc})
+	}
 	sort.SliceStable(es, func(i, j int) bool { return es[i].name < es[j].name })
 	var us []*Unit
 	for _, e := range es {
 		bound := 1
 		maxW := 6
 		dedicated := map[string]bool{"defer-same-task-parallel": true, "matrix-ref-parallel-deps": true, "dynvars-parallel": true,
-			"once-failing-two-callers": true, "c17-executor-group": true, "c17-executor-prefixed": true, "reader-sibling-includes": true}
+			"once-failing-two-callers": true, "c17-executor-group": true, "c17-executor-prefixed": true, "reader-sibling-includes": true, "reader-diamond-dirs-dynvar": true}
 		heavy := map[string]bool{"c01-twolevel-cancel": true, "c01-nested-call-in-dep-N1": true, "c07-fail-nested-N2": true}
 		switch {
 		case dedicated[e.name]:
